@@ -304,17 +304,26 @@ def gen_node_case(g):
     pre = [g.choice(["train", "run", "run", "partial"]) for _ in range(g.randint(0, 3))]
     ops = [[g.choice(NODE_OPS), g.randint(0, 10 ** 6)] for _ in range(g.randint(2, 6))]
     return {"kind": "node", "node": kind, "how": how, "seed": g.randint(0, 10 ** 6), "pre": pre, "ops": ops,
-            "mutate": g.choice(["copy", "orig"])}
+            "mutate": g.choice(["copy", "orig"]),
+            # what is copied is the live original, or itself a clone (a deep copy or an unpickled node: an object whose
+            # name the class registry has never seen)
+            "source": g.choice(["original", "original", "deepcopy", "pickle"])}
 
 
 def check_node(ctx, c):
     kind, how = c["node"], c["how"]
     ob = f"node/{how}"
     res = []
+    ctx.stat(f"node copy source={c.get('source', 'original')}")
     r = common.exc_class(prep_node, c)
     if r[0] != "ok":
         return ob, [("skip", f"history not applicable to {kind}: {r[1]}")]
     node, sender = r[1]
+    if c.get("source", "original") != "original":
+        rs = common.exc_class(do_copy, node, c["source"])
+        if rs[0] != "ok":
+            return ob, [("oracle", f"{c['source']} of a {kind} (history {c['pre']}) raised {rs[1]}")]
+        node = rs[1]
     name_before = node.name
     d_before = node_digest(node)
     rc = common.exc_class(do_copy, node, how)
@@ -355,6 +364,15 @@ def check_node(ctx, c):
             rb = common.exc_class(lambda: cp.call(x, stateful=False))
             if ra[0] != rb[0] or (ra[0] == "ok" and not same_out(ra[1], rb[1])):
                 res.append(("oracle", f"a shallow copy of a {kind} answers a stateless call differently from the original"))
+        if kind in ("Input", "ReservoirFb") and node.is_initialized:
+            # the state and the name are the copy's own (attributes, not shared containers): moving or renaming the copy
+            # leaves its source where it was
+            st0, nm0 = np.array(node.state(), dtype=float).copy(), node.name
+            rr = common.exc_class(lambda: cp.run(data(c["seed"] + 10, 3, 2)))
+            if rr[0] == "ok" and not np.array_equal(np.asarray(node.state(), dtype=float), st0):
+                res.append(("oracle", f"running a shallow copy of a {kind} ({'a ' + c.get('source', 'original') + ' clone' if c.get('source', 'original') != 'original' else 'the original'}) moved the state of its source"))
+            if node.name != nm0:
+                res.append(("oracle", f"running a shallow copy renamed its source: {nm0!r} -> {node.name!r}"))
         return ob, res
     # lock-step operations
     for i, (op, s) in enumerate(c["ops"]):
